@@ -112,6 +112,8 @@ def run_case(case):
 
 
 def nontrivial(case):
+    if case.get('kind') == 'threads':
+        return bool(case.get('sched'))
     s = case['seq']
     return bool(s) and R.is_int(s[0]) and R.expected_data_len(s[0]) is not None
 
@@ -309,9 +311,19 @@ _orig_run_case = run_case
 
 
 def run_case(case):  # noqa: F811
+    if case.get('kind') == 'threads':
+        # from_bytes is a pure function: two threads decoding (also as the very first thing after import) get what a
+        # single thread gets - the machinery is C01's
+        from checks import c01_codec as C01
+        return C01.check_threads(case)
     if case.get('via') == 'from_hex':
         return run_hex(case)
     return _orig_run_case(case)
+
+
+def first_use_shard(rec, shard):
+    from checks import c01_codec as C01
+    C01.thread_shard(rec, shard)
 
 
 def main(ctx):
@@ -324,6 +336,7 @@ def main(ctx):
         ctx.pmap('enum_quick', [('len012', a) for a in [-1] + list(range(256))] +
                  [('len3', a) for a in B48] + [('len456', a) for a in B12])
         ctx.exhaustive = False
+    ctx.pmap('first_use_shard', [(t,) for t in ('pitchwheel', 'songpos', 'quarter_frame', 'sysex', 'note_on', 'program_change')])
     # from_hex with an explicit separator, regex-special characters included: valid and invalid encodings
     for sep in SEPS:
         for seq in ([0x90, 0x3C, 0x40], [0xF8], [0xF0, 1, 2, 0xF7], [0xF0, 0xF7], [0xE0, 0, 0x40], [0x90, 0x3C],
